@@ -11,9 +11,11 @@
    ownership discipline (Vec<T> drops its elements once); the model shows there is exactly
    one owner slot per object.  The correspondence check compares raw arena dumps and the
    live-instance counters of instrumented key/value types after every call and after drop.
-   OBLIGATIONS: C11_values_accounted C11_keys_accounted C11_freed_slots_hold_nothing C11_returned_object_is_the_stored_one C11_clear_drops_everything C11_nonvacuous *)
+   OBLIGATIONS: C11_values_accounted C11_keys_accounted C11_freed_slots_hold_nothing C11_returned_object_is_the_stored_one C11_clear_drops_everything C11_nonvacuous C11_arena_level_on_reachable *)
 From BPT Require Import Common.Base Common.AMap Rust.Arena Rust.Tree Rust.Heap Rust.Readers Rust.Run
      Rust.InvDefs Rust.Repr Rust.Spec Rust.ReachDefs Rust.Accounting Rust.MiscProofs Rust.Reach Props.Reachable.
+From BPT Require Import Rust.HeapOps.
+From BPT Require Extra.RustExtra.
 From Coq Require Import Permutation.
 
 Theorem C11_values_accounted :
@@ -80,3 +82,12 @@ Theorem C11_clear_drops_everything :
 Proof. intros V b Hc. cbv zeta. vm_compute. auto. Qed.
 
 Definition C11_nonvacuous := (AccountingExamples.ex_accounted, AccountingExamples.ex_values).
+
+(* what gives content to the freed-slot statements above: on every reachable state the slot-by-slot arena algorithm (which moves nodes out of freed slots) yields exactly flatten of the tree-level result, whose freed slots hold the default node *)
+Theorem C11_arena_level_on_reachable : forall (V : Type) (c : nat) (ops : list (op V)) (o : op V), 4 <= c -> fits (ops_weight ops + 1) ->
+  exists b, state_after c ops = Some b /\
+    match mut_A (flatten b) o with
+    | Some r => r = Ok (flatten (fst (step b o)), snd (step b o))
+    | None => True
+    end.
+Proof. exact RustExtra.arena_level_on_reachable. Qed.
